@@ -45,6 +45,9 @@ type c08Layer struct {
 	att router.AnnouncePingAttachment // NextAttachment ignored when re-encoding
 	raw []byte                        // signed record bytes as captured (nil if rebuilt)
 	sig []byte
+	// signer, if set, signs this record when the chain is rebuilt (a forged
+	// record that carries the forger's key under somebody else's address).
+	signer *ids.Identity
 }
 
 // c08Split decodes an appendix into layers, outermost first.
@@ -81,7 +84,9 @@ func c08Build(layers []c08Layer, attacker *ids.Identity, context []byte) []byte 
 			panic(err)
 		}
 		sig := l.sig
-		if attacker != nil && att.Router.IP == attacker.Addr.IP {
+		if l.signer != nil {
+			sig, _ = l.signer.Addr.SignWithContext(raw, context)
+		} else if attacker != nil && att.Router.IP == attacker.Addr.IP {
 			sig, _ = attacker.Addr.SignWithContext(raw, context)
 		}
 		if len(sig) != 64 {
@@ -245,7 +250,7 @@ func TestC08(t *testing.T) {
 			rebuild := func(ls []c08Layer) {
 				data = append(data[:parts.apxStart:parts.apxStart], c08Build(ls, attacker, ctx)...)
 			}
-			op := c.Weighted("op", 8, 6, 8, 5, 6, 5, 5, 7, 6, 5, 4, 7, 3, 3)
+			op := c.Weighted("op", 8, 6, 8, 5, 6, 5, 5, 7, 8, 5, 4, 7, 3, 3, 6)
 			switch op {
 			case 0:
 				i := c.Uniform("flip.body", parts.msgStart, parts.authStart-1)
@@ -372,8 +377,14 @@ func TestC08(t *testing.T) {
 					}
 					if who.Addr.IP != ls[j].att.Router.IP {
 						ls[j].att.Router = who.Addr.PublicAddress
-						rebuild(ls)
 						opName, level = "re-attribute-layer", j+1
+						if c.Bool("reattr.ownkey") {
+							// ... under the forger's own key, signed with it.
+							ls[j].att.Router.PublicKey = attacker.Addr.PublicKey
+							ls[j].signer = attacker
+							opName = "re-attribute-layer-with-forgers-key"
+						}
+						rebuild(ls)
 					} else {
 						opName = "unmodified"
 					}
@@ -426,6 +437,32 @@ func TestC08(t *testing.T) {
 				data = append(data[:parts.apxStart:parts.apxStart], c08Build(ls, atk.ID, ctx)...)
 				deliverLink = V.Links[atk.IP()]
 				opName = fmt.Sprintf("attacker-wraps-%d-own-layers", n)
+			case 14: // an extra inner hop that names a router known to V, under the forger's key
+				var cands []*ids.Identity
+				for _, n := range ms.nodes {
+					in := n == V || n.IP() == h.origin
+					for _, l := range layers {
+						if l.att.Router.IP == n.IP() {
+							in = true
+						}
+					}
+					if !in {
+						cands = append(cands, n.ID)
+					}
+				}
+				if len(layers) >= 1 && len(cands) > 0 {
+					who := cands[c.Pick("forge.who", len(cands))]
+					j := c.Int("forge.j", 1, len(layers))
+					pa := who.Addr.PublicAddress
+					pa.PublicKey = attacker.Addr.PublicKey
+					fake := c08Layer{att: router.AnnouncePingAttachment{Router: pa, Delay: uint16(c.Int("forge.delay", 0, 50)),
+						ForwardLabel: m.SwitchLabel(c.Int("forge.f", 1, 300)), ReturnLabel: m.SwitchLabel(c.Int("forge.r", 1, 300))}, signer: attacker}
+					ls := append(append(append([]c08Layer(nil), layers[:j]...), fake), layers[j:]...)
+					rebuild(ls)
+					opName, level = "insert-hop-of-known-router-under-forgers-key", j+1
+				} else {
+					opName = "unmodified"
+				}
 			default: // chain containing V itself
 				ls := append([]c08Layer(nil), layers...)
 				j := c.Int("loop.j", 0, len(ls))
